@@ -27,7 +27,7 @@ func runIn(c *core.Ctx, dir, stdin string, timeout time.Duration, args ...string
 	var so, se bytes.Buffer
 	cmd.Stdout = &so
 	cmd.Stderr = &se
-	cmd.Env = append(os.Environ(), "GOMEMLIMIT=2GiB")
+	cmd.Env = append(append(os.Environ(), "GOMEMLIMIT=2GiB"), extraEnv...)
 	err := cmd.Run()
 	r := core.CLIResult{Stdout: so.String(), Stderr: se.String()}
 	if ctx.Err() == context.DeadlineExceeded {
